@@ -54,6 +54,9 @@ def pool_config(seed: int, epoch: int, n: int = 16) -> tuple[list[int], list[dic
     # two interpreters share hash seed 0 (the base cell of every document runs there), 14 distinct others
     hs = [0, 0] + r.sample(range(1, 2**31), n - 2)
     envs = [dict(LOCALES[0]), dict(LOCALES[0])] + [dict(r.choice(LOCALES)) for _ in range(n - 2)]
+    for i in range(2, 8):  # at least eight interpreters can name non-ASCII files (see build_cells)
+        if envs[i].get("PYTHONUTF8") == "0":
+            envs[i] = dict(LOCALES[3])
     return hs, envs
 
 
@@ -153,11 +156,36 @@ def apply_perm(doc: dict, perm: dict | None) -> dict:
     return d
 
 
+def has_nonascii_names(x: Any) -> bool:
+    """does the document spell a NAME (map key, parameter / operation / schema name, title, tag) with non-ASCII characters?
+    Such names become module FILE names, which an interpreter whose file-system encoding is ASCII cannot create at all."""
+    if isinstance(x, dict):
+        for k, v in x.items():
+            if not str(k).isascii():
+                return True
+            if k in ("name", "operationId", "title", "$ref") and isinstance(v, str) and not v.isascii():
+                return True
+            if k == "tags" and isinstance(v, list) and any(not str(t).isascii() for t in v):
+                return True
+            if has_nonascii_names(v):
+                return True
+    elif isinstance(x, list):
+        return any(has_nonascii_names(v) for v in x)
+    return False
+
+
 def build_cells(seed: int, doc: dict, hashseeds: list[int], with_hooks: bool, other_docs: list[dict], penvs: list[dict] | None = None) -> list[dict]:
     r = rng.stream(seed, "cells")
     cells: list[dict] = []
     penv_of = {h: (penvs[i] if penvs else {}) for i, h in enumerate(hashseeds)}
     hashseeds = list(dict.fromkeys(hashseeds))
+    if has_nonascii_names(doc) or any(has_nonascii_names(o) for o in other_docs):
+        # the locale dimension then stays inside the UTF-8 family: under LC_ALL=POSIX with UTF-8 mode off the interpreter cannot
+        # even NAME a file 'größe.py' (UnicodeEncodeError from os.fsencode) - a limit of that platform configuration, not a
+        # dependence of the generator's output on it (false alarm met in soak, VERIF_SEED=100-102)
+        utf8 = [h for h in hashseeds if (penv_of.get(h) or {}).get("PYTHONUTF8") != "0"]
+        if len(utf8) >= 5:
+            hashseeds = utf8
 
     def skew() -> dict:
         # (mtime_days: the document FILE's modification time differs from cell to cell - by days, not milliseconds)
